@@ -108,7 +108,7 @@ def run(ctx):
                     (bytes(x % 251 for x in range(4095)), 8), (bytes(x % 251 for x in range(4095)), 64), (b"\x01", 8)]:
         check_stream(ctx, [0x7E0], [(0x7E0, f) for f in L.segment(p, dl, b"\xAA\xAA")], {0x7E0: [p]}, "corpus", pending)
     # 1. random interleavings
-    for n in range(3000 if big else 250):
+    for n in range(3000 if big else 1200):
         ids, streams, expect = gen_stream(rng, rng.randint(1, 3), big)
         check_stream(ctx, ids, L.interleave(rng, streams), expect, "random-interleave", pending)
     # 2. every length at every frame size (single ID): boundary set, thorough: all 1..4095 for dl=8 and 64
@@ -123,7 +123,7 @@ def run(ctx):
             ctx.histo("dl", dl)
     # 3. exhaustive interleavings of small streams (<= 8 frames quick, <= 10 thorough), 2-3 IDs
     lim = 10 if big else 8
-    for trial in range(40 if big else 8):
+    for trial in range(40 if big else 16):
         n_ids = rng.choice([2, 3])
         ids = rng.sample(range(0x700, 0x7F0), n_ids)
         streams, expect = [], {}
@@ -150,7 +150,7 @@ def run(ctx):
         ctx.count("exhaustive_interleaving_sets")
     flush_model(ctx, pending)
     # 4. text logs: same frames through read_telegrams in the three candump formats
-    for n in range(300 if big else 40):
+    for n in range(300 if big else 160):
         ids, streams, expect = gen_stream(rng, rng.randint(1, 3), False)
         frames = [(c, f) for (c, f) in L.interleave(rng, streams) if len(f) > 0]
         for fmt in ("normal", "log", "fdlog"):
@@ -168,7 +168,7 @@ def run(ctx):
                             f"read_telegrams({fmt} log) differs from the transmitted telegrams")
     # 5. active decoder: one clear-to-send frame per first frame; compare with the model
     act = []
-    for n in range(600 if big else 80):
+    for n in range(600 if big else 320):
         ids, streams, expect = gen_stream(rng, rng.randint(1, 2), False)
         frames = L.interleave(rng, streams)
         tx = [i + 0x100 + 8 for i in ids]
